@@ -149,17 +149,35 @@ func init() {
 	}
 	libSpecs[d+"Add"] = bin("+")
 	libSpecs[d+"Sub"] = bin("-")
-	libSpecs[d+"Mul"] = func(c *callCtx) Val { return c.def("dm", app("dec_mul", c.args[0].S, c.args[1].S)) }
+	// relational encodings: the result is a fresh constant constrained by linear inequalities (is_round_he / is_tdiv);
+	// the functional definitions (div/mod with 10^18, 10^36) are much harder for the solvers
+	relRound := func(c *callCtx, x string) string {
+		e := c.e()
+		q := e.vc.fresh("dq", "Int")
+		e.vc.assume(app("is_round_he", x, q))
+		return q
+	}
+	relTdiv := func(c *callCtx, a, b string) string {
+		e := c.e()
+		x := e.vc.fresh("dt", "Int")
+		e.vc.assume(implies(not(eq(b, "0")), app("is_tdiv", a, b, x)))
+		return x
+	}
+	libSpecs[d+"Mul"] = func(c *callCtx) Val {
+		return c.ret(relRound(c, c.e().vc.define("prod", "Int", app("*", c.args[0].S, c.args[1].S))))
+	}
 	libSpecs[d+"MulTruncate"] = func(c *callCtx) Val {
 		return c.def("dm", app("tdiv", app("*", c.args[0].S, c.args[1].S), "1000000000000000000"))
 	}
 	libSpecs[d+"Quo"] = func(c *callCtx) Val {
 		c.obl("panic.lib", "Dec.Quo_by_zero", not(eq(c.args[1].S, "0")))
-		return c.def("dq", app("dec_quo", c.args[0].S, c.args[1].S))
+		x := relTdiv(c, app("*", c.args[0].S, "1000000000000000000000000000000000000"), c.args[1].S)
+		return c.ret(relRound(c, x))
 	}
 	libSpecs[d+"QuoTruncate"] = func(c *callCtx) Val {
 		c.obl("panic.lib", "Dec.Quo_by_zero", not(eq(c.args[1].S, "0")))
-		return c.def("dq", app("dec_quo_trunc", c.args[0].S, c.args[1].S))
+		x := relTdiv(c, app("*", c.args[0].S, "1000000000000000000000000000000000000"), c.args[1].S)
+		return c.ret(relTdiv(c, x, "1000000000000000000"))
 	}
 	libSpecs[d+"MulInt"] = bin("*")
 	libSpecs[d+"MulInt64"] = bin("*")
@@ -168,18 +186,18 @@ func init() {
 		return c.def("dq", app("tdiv", c.args[0].S, c.args[1].S))
 	}
 	libSpecs[d+"QuoInt64"] = libSpecs[d+"QuoInt"]
-	libSpecs[d+"TruncateInt"] = func(c *callCtx) Val { return c.def("t", app("dec_trunc", c.args[0].S)) }
+	libSpecs[d+"TruncateInt"] = func(c *callCtx) Val { return c.ret(relTdiv(c, c.args[0].S, "1000000000000000000")) }
 	libSpecs[d+"TruncateDec"] = func(c *callCtx) Val {
-		return c.def("t", app("dec_of_int", app("dec_trunc", c.args[0].S)))
+		return c.def("t", app("dec_of_int", relTdiv(c, c.args[0].S, "1000000000000000000")))
 	}
 	libSpecs[d+"TruncateInt64"] = func(c *callCtx) Val {
-		t := c.e().vc.define("t", "Int", app("dec_trunc", c.args[0].S))
+		t := relTdiv(c, c.args[0].S, "1000000000000000000")
 		c.obl("panic.lib", "Dec.TruncateInt64_out_of_range", inRange(t, types.Typ[types.Int64]))
 		return c.ret(t)
 	}
-	libSpecs[d+"RoundInt"] = func(c *callCtx) Val { return c.def("r", app("round_he", c.args[0].S)) }
+	libSpecs[d+"RoundInt"] = func(c *callCtx) Val { return c.ret(relRound(c, c.args[0].S)) }
 	libSpecs[d+"RoundInt64"] = func(c *callCtx) Val {
-		t := c.e().vc.define("t", "Int", app("round_he", c.args[0].S))
+		t := relRound(c, c.args[0].S)
 		c.obl("panic.lib", "Dec.RoundInt64_out_of_range", inRange(t, types.Typ[types.Int64]))
 		return c.ret(t)
 	}
@@ -354,7 +372,7 @@ func init() {
 		hn, hs := e.vc.arrHeapName(sl.Elem())
 		h := e.heap(c.st, hn, hs)
 		n := app("slen", in.S)
-		c0 := app("select", app("select", h, app("sptr", in.S)), app("soff", in.S))
+		c0 := app("select", app("select", h, app("sptr", in.S)), app("idx", app("soff", in.S), "0"))
 		ss := e.vc.structInfo(sl.Elem())
 		amt := app(ss.fields[1], c0)
 		c.obl("panic.lib", "NewCoins_negative_amount", implies(app(">=", n, "1"), app(">=", amt, "0")))
@@ -378,7 +396,7 @@ func init() {
 		sl := types.Unalias(in.T).Underlying().(*types.Slice)
 		hn, hs := e.vc.arrHeapName(sl.Elem())
 		ss := e.vc.structInfo(sl.Elem())
-		c0 := app("select", app("select", e.heap(c.st, hn, hs), app("sptr", in.S)), app("soff", in.S))
+		c0 := app("select", app("select", e.heap(c.st, hn, hs), app("sptr", in.S)), app("idx", app("soff", in.S), "0"))
 		n := app("slen", in.S)
 		r := e.vc.fresh("amountof", "Int")
 		e.assumeIn(c.st, app(">=", r, "0"))
@@ -541,17 +559,18 @@ func sortSpec(c *callCtx, stable bool) Val {
 	newArr := e.vc.fresh("sort_new", "(Array Int "+es+")")
 	e.sortN++
 	k := e.sortN
-	// frame: outside [off, off+n) unchanged
-	e.assumeIn(st, fmt.Sprintf("(forall ((j Int)) (! (=> (or (< j %s) (>= j (+ %s %s))) (= (select %s j) (select %s j))) :pattern ((select %s j))))", off, off, n, newArr, oldArr, newArr))
-	// permutation witness
+	// permutation witness: pi is a bijection on all integers (identity outside [0,n)), so that the axioms are
+	// unconditional and E-matching merges pinv(pi(j)) with j at once (no matching loop)
 	pi, pinv := fmt.Sprintf("sort_pi_%d", k), fmt.Sprintf("sort_pinv_%d", k)
 	e.vc.declFun(pi, []string{"Int"}, "Int")
 	e.vc.declFun(pinv, []string{"Int"}, "Int")
-	e.assumeIn(st, fmt.Sprintf("(forall ((j Int)) (! (=> (and (<= 0 j) (< j %s)) (and (<= 0 (%s j)) (< (%s j) %s) (= (%s (%s j)) j) (= (select %s (+ %s j)) (select %s (+ %s (%s j)))))) :pattern ((%s j))))",
-		n, pi, pi, n, pinv, pi, newArr, off, oldArr, off, pi, pi))
-	e.assumeIn(st, fmt.Sprintf("(forall ((j Int)) (! (=> (and (<= 0 j) (< j %s)) (and (<= 0 (%s j)) (< (%s j) %s) (= (%s (%s j)) j))) :pattern ((%s j))))",
-		n, pinv, pinv, n, pi, pinv, pinv))
+	inR := func(t string) string { return and(app("<=", "0", t), app("<", t, n)) }
+	e.assumeIn(st, fmt.Sprintf("(forall ((j Int)) (! (and (= (%s (%s j)) j) (= (select %s (idx %s j)) (select %s (idx %s (%s j)))) (= %s %s) (=> (not %s) (= (%s j) j))) :pattern ((%s j)) :pattern ((select %s (idx %s j)))))",
+		pinv, pi, newArr, off, oldArr, off, pi, inR("j"), inR(app(pi, "j")), inR("j"), pi, pi, newArr, off))
+	e.assumeIn(st, fmt.Sprintf("(forall ((m Int)) (! (and (= (%s (%s m)) m) (= %s %s)) :pattern ((%s m)) :pattern ((select %s (idx %s m)))))",
+		pi, pinv, inR("m"), inR(app(pinv, "m")), pinv, oldArr, off))
 	e.setHeap(st, hn, hs, app("store", h, ptr, newArr))
+	e.sortPerms = append(e.sortPerms, sortPerm{pre: h, post: st.heaps[hn], n: n})
 
 	// evaluate less on an arbitrary content with fresh indices: panic-freedom + shape detection
 	probe := st.clone()
@@ -567,18 +586,31 @@ func sortSpec(c *callCtx, stable bool) Val {
 	if kindOf(sl.Elem()) == kInt {
 		// is less(i,j) == elem[i] < elem[j] ? decided by the solver at run time through a guarded assumption:
 		// plainLess_k is defined as that equivalence for all contents; facts below are conditional on it.
-		ei, ej := app("select", anyArr, app("+", off, i0)), app("select", anyArr, app("+", off, j0))
+		ei, ej := app("select", anyArr, app("idx", off, i0)), app("select", anyArr, app("idx", off, j0))
 		o := e.addObl(probe, "sort.less_is_lt", fr.lbl(fmt.Sprintf("sort%d", k)), eq(r.S, app("<", ei, ej)), c.pos)
 		o.Kind = "sort.less_is_lt"
 		// the facts are only sound if the obligation holds; the obligation is part of the function's proof
 		e.declSeq()
 		sOld := app("seq_of", oldArr, off, n)
 		e.assumeIn(st, eq(app("seq_of", newArr, off, n), app("sorted_of", sOld)))
-		e.assumeIn(st, fmt.Sprintf("(forall ((a Int) (b Int)) (! (=> (and (<= 0 a) (< a b) (< b %s)) (<= (select %s (+ %s a)) (select %s (+ %s b)))) :pattern ((select %s (+ %s a)) (select %s (+ %s b)))))", n, newArr, off, newArr, off, newArr, off, newArr, off))
+		e.assumeIn(st, fmt.Sprintf("(forall ((a Int) (b Int)) (! (=> (and (<= 0 a) (< a b) (< b %s)) (<= (select %s (idx %s a)) (select %s (idx %s b)))) :pattern ((select %s (idx %s a)) (select %s (idx %s b)))))", n, newArr, off, newArr, off, newArr, off, newArr, off))
 		e.sortDeps = append(e.sortDeps, o.Name)
-	} else {
-		e.note("approx", "sort with non-integer elements: ordering facts from the less closure are not derived (permutation + frame only)")
-		e.pendingSorts = append(e.pendingSorts, &sortSite{k: k, less: less, newArr: newArr, off: off, n: n, elem: sl.Elem(), sv: sv, stable: stable, oldArr: oldArr, pi: pi})
+	}
+	// ordering facts: the closure is evaluated in pure-term mode on the post-sort state with quantified indices
+	{
+		sa, sb := fmt.Sprintf("sa_q%d", k), fmt.Sprintf("sb_q%d", k)
+		n0 := e.vc.n
+		e.vc.inline = true
+		post := st.clone()
+		ictx := &callCtx{fr: fr, st: post, instr: c.instr, common: c.common, rt: types.Typ[types.Bool], pos: c.pos}
+		rr := fr.inline(ictx, less.Clo.fn, less.Clo.bindings, []Val{{S: sb, T: types.Typ[types.Int]}, {S: sa, T: types.Typ[types.Int]}})
+		e.vc.inline = false
+		if e.vc.n != n0 || len(e.oos) > 0 || rr.S == "" {
+			e.note("approx", "sort: ordering facts could not be derived from the less closure (permutation + frame only)")
+		} else {
+			e.assumeIn(st, fmt.Sprintf("(forall ((%s Int) (%s Int)) (! (=> (and (<= 0 %s) (< %s %s) (< %s %s)) (not %s)) :pattern ((select %s (idx %s %s)) (select %s (idx %s %s)))))",
+				sa, sb, sa, sa, sb, sb, n, rr.S, newArr, off, sa, newArr, off, sb))
+		}
 	}
 	return Val{T: c.rt}
 }
@@ -595,7 +627,7 @@ func (e *Engine) declSeq() {
 	e.vc.declFun("seq_len", []string{"SeqI"}, "Int")
 	e.vc.declFun("sorted_of", []string{"SeqI"}, "SeqI")
 	e.vc.declSort("(assert (forall ((a (Array Int Int)) (o Int) (n Int)) (! (= (seq_len (seq_of a o n)) n) :pattern ((seq_of a o n)))))")
-	e.vc.declSort("(assert (forall ((a (Array Int Int)) (o Int) (n Int) (k Int)) (! (=> (and (<= 0 k) (< k n)) (= (seq_at (seq_of a o n) k) (select a (+ o k)))) :pattern ((seq_at (seq_of a o n) k)))))")
+	e.vc.declSort("(assert (forall ((a (Array Int Int)) (o Int) (n Int) (k Int)) (! (=> (and (<= 0 k) (< k n)) (= (seq_at (seq_of a o n) k) (select a (idx o k)))) :pattern ((seq_at (seq_of a o n) k)))))")
 	e.vc.declSort("(assert (forall ((s SeqI)) (! (= (seq_len (sorted_of s)) (seq_len s)) :pattern ((sorted_of s)))))")
 	e.vc.declSort("(assert (forall ((s SeqI) (a Int) (b Int)) (! (=> (and (<= 0 a) (< a b) (< b (seq_len s))) (<= (seq_at (sorted_of s) a) (seq_at (sorted_of s) b))) :pattern ((seq_at (sorted_of s) a) (seq_at (sorted_of s) b)))))")
 }
@@ -610,3 +642,6 @@ type sortSite struct {
 	sv          Val
 	stable      bool
 }
+
+// sortPerm records that heap term post is heap term pre with one slice segment permuted (length n).
+type sortPerm struct{ pre, post, n string }
